@@ -32,7 +32,12 @@ Inductive instr :=
 | IJmp (tgt : nat)
 | IFree (o : nat)                 (* delete object o (its mutexes/conds/vars are 8o..8o+7) *)
 | IOut (k : nat)                  (* observation: the call k returned reg *)
-| IEnd.
+| IEnd
+(* added for the event loop's executor (SelectServer) *)
+| ISwap (a b : nat)               (* std::vector::swap of two callback queues *)
+| IRunB (tgt : nat)               (* cur->Run(); if the callback itself calls Execute() continue, else goto tgt *)
+| IPushR (q : nat)                (* queue.push(callback (self,reg)); reg++   (Execute called from inside a callback) *)
+| ICnt.                           (* cnt++ *)
 
 Inductive status := NotStarted | Fresh | Ready | Asleep (c m : nat) | Woken (m : nat) | Done.
 
@@ -118,6 +123,9 @@ Definition busy8 (s : state) (o : nat) : bool :=
                     || negb (match wq s r with [] => true | _ => false end))
           (map (fun i => 8 * o + i) (seq 0 8)).
 
+(* does callback c call Execute() again when it is run? (scenario parameter 100 + submitter) *)
+Definition resub (s : state) (c : cb) : bool := snd c <? pars s (100 + fst c).
+
 (* one instruction of a Ready thread t; pick = which waiter a signal wakes *)
 Definition exec_instr (s : state) (t : tid) (pick : nat) (i : instr) : option state :=
   let th := thr s t in
@@ -201,6 +209,18 @@ Definition exec_instr (s : state) (t : tid) (pick : nat) (i : instr) : option st
       if busy8 s o then Some (set_fault s DestroyBusy) else adv (set_alive s o false)
   | IOut k => adv (add_out s (t, k, reg th))
   | IEnd => Some (set_thr s t (with_stat th Done))
+  | ISwap a b => if negb (live s a && live s b) then uaf else
+      adv (set_que (set_que s a (que s b)) b (que s a))
+  | IRunB tgt =>
+      match cur th with
+      | None => Some (set_fault s NoCallback)
+      | Some c => Some (set_thr (add_ran s (c, t)) t
+                          (if resub s c then next (with_cur th None) else with_pc (with_cur th None) tgt))
+      end
+  | IPushR q => if negb (live s q) then uaf else
+      let c := (t, reg th) in
+      Some (set_thr (add_subm (set_que s q (que s q ++ [c])) c) t (next (with_reg th (S (reg th)))))
+  | ICnt => Some (set_thr s t (next (with_cnt th (S (cnt th)))))
   end.
 
 Inductive label := LStep (t : tid) (pick : nat) | LSpur (t : tid).
